@@ -2,11 +2,14 @@
    Model: Model/Flow.v (mirrors deeprob/flows/{utils,layers/autoregressive,layers/coupling,
    models/base,models/realnvp}.py and deeprob/torch/utils.py MaskedLinear).
    All statements are for every size, every degree list / ordering, every parameter value and an
-   ARBITRARY conditioner function.  Not formalised (see docs/notes_C15.md): the multivariate step
-   "triangular Jacobian => log|det J| = sum of log|diagonal|" and the identification of the Jacobian
-   entries with partial derivatives; what is proved instead is the functional triangularity
-   (C15_ar_triangular_partial), the per-coordinate derivative theorems over R and the exact
-   inverse / antisymmetry identities. *)
+   ARBITRARY conditioner function.  The determinant step is closed at the end of the file: for the
+   autoregressive and the (affine) coupling layer EVERY matrix of partial derivatives of
+   apply_backward at x has determinant exp(reported ildj) (C15_ar_logdet, C15_coupling_logdet; the
+   entries above the ranked diagonal are 0 and the diagonal is exp(-s_i) by Coquelicot derivatives,
+   det of a rank-triangular matrix = product of its diagonal by the Leibniz formula,
+   C15_det_rank_triangular, over any commutative ring).  Not formalised: that a conditioner which is a
+   neural network is differentiable (not needed: the theorems quantify over every matrix of partial
+   derivatives that exists) and the change-of-variables formula of integration itself. *)
 From Coq Require Import List Arith Bool Reals Ring Field.
 From Coquelicot Require Import Coquelicot.
 From DV Require Import Model.Flow Proofs.FlowFacts Proofs.FlowReal.
@@ -137,11 +140,10 @@ Section C15_ring.
        (u, topp (snd (ar_fwd T t0 tadd tmul texp n cond (inv_ordering d0) u)))).
   Proof. exact (maf_layer_inverse T t0 t1 tadd tmul tsub topp texp Rth exp_add exp_0). Qed.
 
-  (* PARTIAL: functional triangularity of the autoregressive map (coordinate i of apply_backward
-     depends only on inputs of degree <= deg i).  Missing for the full "log-det is exact" claim:
-     det of a (permuted-)triangular matrix = product of its diagonal (mathcomp det_trig, cited) and
-     the identification of Jacobian entries with partial derivatives. *)
-  Theorem C15_ar_triangular_partial : forall n (deg : nat -> nat) (cond : condT T),
+  (* functional triangularity of the autoregressive map (coordinate i of apply_backward depends only on
+     inputs of degree <= deg i), over any number type; the determinant step over the reals is
+     C15_ar_logdet below *)
+  Theorem C15_ar_triangular : forall n (deg : nat -> nat) (cond : condT T),
     (forall x x' i, length x = n -> length x' = n -> i < n ->
        (forall j, j < n -> deg j < deg i -> nth j x t0 = nth j x' t0) ->
        nth i (fst (cond x)) t0 = nth i (fst (cond x')) t0 /\ nth i (snd (cond x)) t0 = nth i (snd (cond x')) t0) ->
@@ -215,6 +217,44 @@ Theorem C15_bn_derivative : forall w b m v x, 0 < v ->
   is_derive (fun u => (u - b) * exp (- w) * sqrt v + m) x (exp (- w + 1 / (1 + 1) * ln v)).
 Proof. intros. split; [now apply bn_bwd_derive|now apply bn_fwd_derive]. Qed.
 
+(* ---------------- the determinant step (mathcomp matrices; the reals as a commutative ring) ---------------- *)
+From mathcomp Require Import all_ssreflect all_fingroup all_algebra.
+From DV Require Import Proofs.DetRank Proofs.FlowJacobian Proofs.FlowLogDet.
+
+(* any commutative ring: if J i j = 0 whenever i <> j and rank i <= rank j then det J is the product of
+   the diagonal (rank = position in the ordering: autoregressive; rank = 0/1 by the mask: coupling;
+   constant rank: element-wise layers) *)
+Theorem C15_det_rank_triangular : forall (K : comRingType) n (J : 'M[K]_n) (rank : 'I_n -> nat),
+  (forall i j, i != j -> (rank i <= rank j)%N -> J i j = 0%R) -> (\det J = \prod_i J i i)%R.
+Proof. exact det_ranked. Qed.
+
+(* autoregressive layer, conditioner = ANY function whose outputs for coordinate i depend only on inputs of
+   lower degree: every matrix of partial derivatives of apply_backward at x has determinant exp(ildj) *)
+Theorem C15_ar_logdet : forall (n : nat) (deg : nat -> nat) (cond : condT R),
+  (forall x x' i, length x = n -> length x' = n -> (i < n)%coq_nat ->
+     (forall j, (j < n)%coq_nat -> (deg j < deg i)%coq_nat -> List.nth j x 0%R = List.nth j x' 0%R) ->
+     List.nth i (fst (cond x)) 0%R = List.nth i (fst (cond x')) 0%R /\
+     List.nth i (snd (cond x)) 0%R = List.nth i (snd (cond x')) 0%R) ->
+  (forall i j, (i < n)%coq_nat -> (j < n)%coq_nat -> deg i = deg j -> i = j) ->
+  forall (x : list R) (J : 'M[R_comRingType]_n), length x = n ->
+  (forall i j : 'I_n, is_derive (partial (ar_map n cond) x i j) (List.nth j x 0%R) (J i j)) ->
+  (\det J)%R = exp (snd (Rar_bwd n cond x)).
+Proof. exact ar_logdet. Qed.
+
+(* affine coupling layer (1d alternating / 2d checkerboard masks as 0/1 vectors), conditioner = ANY function *)
+Theorem C15_coupling_logdet : forall (n : nat) (mask : nat -> bool) (cond : condT R)
+  (x : list R) (J : 'M[R_comRingType]_n), length x = n ->
+  (forall i j : 'I_n, is_derive (partial (cp_map n mask cond) x i j) (List.nth j x 0%R) (J i j)) ->
+  (\det J)%R = exp (snd (Rcoupling_bwd true n (vec R n (fun i => if mask i then 1%R else 0%R))
+                                               (vec R n (fun i => if mask i then 0%R else 1%R)) cond x)).
+Proof. exact coupling_logdet. Qed.
+
+(* a flow is a composition: determinants multiply, the fixed permutations contribute +-1 *)
+Theorem C15_det_chain : forall (K : comRingType) n (A B : 'M[K]_n), (\det (A *m B) = \det A * \det B)%R.
+Proof. exact det_chain. Qed.
+Theorem C15_det_permutation : forall (K : comRingType) n (s : 'S_n), (\det (perm_mx s : 'M[K]_n) = (-1) ^+ s)%R.
+Proof. exact det_permutation. Qed.
+
 Print Assumptions C15_masks_autoregressive.
 Print Assumptions C15_masks_autoregressive_tiled.
 Print Assumptions C15_masks_certificate_sound.
@@ -228,7 +268,7 @@ Print Assumptions C15_channel_coupling_inverse.
 Print Assumptions C15_conditioner_connectivity.
 Print Assumptions C15_ar_inverse.
 Print Assumptions C15_maf_layer_inverse.
-Print Assumptions C15_ar_triangular_partial.
+Print Assumptions C15_ar_triangular.
 Print Assumptions C15_flow_composition.
 Print Assumptions C15_multiscale_composition.
 Print Assumptions C15_bn_inverse.
@@ -236,3 +276,8 @@ Print Assumptions C15_logit_inverse.
 Print Assumptions C15_logit_derivative.
 Print Assumptions C15_affine_derivative.
 Print Assumptions C15_bn_derivative.
+Print Assumptions C15_det_rank_triangular.
+Print Assumptions C15_ar_logdet.
+Print Assumptions C15_coupling_logdet.
+Print Assumptions C15_det_chain.
+Print Assumptions C15_det_permutation.
